@@ -22,7 +22,7 @@ RULES = {
           "`_cell_size_lock`; both constructors are re-entrant locks; the terminal locks are taken and released by `with` only (no explicit acquire / release, no os.register_at_fork hooks)",
     "L4": "on every normal path through _process_start_wrapper `self._tty_lock` and `self._cell_size_cache` are assigned "
           "before the wrapped start is called; _process_run_wrapper installs them before the wrapped run; both are patched "
-          "into Process at import under `_tty_fd != -1`",
+          "into Process at import under `_tty_fd != -1`; every store to self._tty_lock / self._cell_size_cache binds the module global of the same name (the child is handed the very lock the parent goes on using), None only inside an exception handler",
     "L6": "a multi-step exchange is one critical section: in every function that takes `with _tty_lock, _tty_lock` explicitly, every call "
           "of a lock_tty-synchronised terminal function (query_terminal/read_tty/write_tty) is inside that with block; and the decision to swap a "
           "lock in _process_start_wrapper (the isinstance test) is evaluated while holding the lock it swaps",
